@@ -378,6 +378,20 @@ pub fn log_to(logger: &dyn Log, level: Level, target: &str, msg: &str) {
     );
 }
 
+/// A record whose module path is not its target (explicit `target:` in the macros).
+pub fn log_with_module(logger: &dyn Log, level: Level, target: &str, module: Option<&str>, msg: &str) {
+    logger.log(
+        &Record::builder()
+            .args(format_args!("{msg}"))
+            .level(level)
+            .target(target)
+            .module_path(module)
+            .file(Some("src/h.rs"))
+            .line(Some(7))
+            .build(),
+    );
+}
+
 pub fn log_info(logger: &dyn Log, msg: &str) {
     log_to(logger, Level::Info, "app", msg);
 }
